@@ -3,6 +3,7 @@ from __future__ import annotations
 
 import ast
 import re
+from fractions import Fraction
 
 from .. import effects as E
 from ..pe import PE, Obj
@@ -49,14 +50,41 @@ def run(chk):
     uses = feko.find(r"Inventory::new\(\s*path\.join\(\s*(\w+)\s*\)")
     chk.decide(len(uses) == 1 and uses[0][0].group(1) == "DIR_OPERATORS", "operators-directory-agrees", "crates/dekoder/src/eko.rs::load_opened",
                "the operator inventory is no longer opened on path.join(DIR_OPERATORS)", where=feko.rel, instance="use")
-    inv_t = pe.call("eko.io.struct.inventories", [Obj(src.cls("eko.io.paths.InternalPaths")) if False else "ROOT", "ACCESS"]) if False else None
     finvs = src.func("eko.io.struct.inventories")
-    t = stmt_text(finvs.node)
-    chk.decide("operators=Inventory(paths.operators" in t.replace(" ", "").replace("operators=Inventory(", "operators=Inventory(") or "paths.operators" in t,
-               "operators-directory-agrees", finvs.qname, "the `operators` inventory is no longer rooted at paths.operators", where=finvs.where, instance="python")
+    from .. import fsmodel
+
+    fs_ = fsmodel.FS()
+    pe_fs = PE(src)
+    fsmodel.install(pe_fs, fs_)
+    invs = pe_fs.call(finvs.qname, [fs_.path("/ROOT"), "ACCESS"])
+    got_dir = str(invs["operators"].attrs["path"]) if isinstance(invs, dict) and "operators" in invs else None
+    chk.decide(got_dir == f"/ROOT/{py_dir}", "operators-directory-agrees", finvs.qname, f"the `operators` inventory of an EKO rooted at /ROOT works in "
+               f"{got_dir}; the reader scans /ROOT/{rc['DIR_OPERATORS'].rstrip('/')}", where=finvs.where, instance="python", how="PE on a model path")
     unpack = feko.find(r"\.unpack\(\s*&dst\s*\)")
-    addall = stmt_text(src.cls("eko.io.struct.EKO").methods["dump"].node)
-    chk.decide(len(unpack) == 1 and "tar.add(self.metadata.path, arcname='.')" in addall, "whole-archive-agrees", "crates/dekoder/src/eko.rs::extract",
+    # the writer: EKO.dump evaluated on the model file system - the members of the archive are the files of the working directory,
+    # named relative to it (what an unpack into a fresh directory reproduces)
+    fs2 = fsmodel.FS()
+    pe2 = PE(src)
+    fsmodel.install(pe2, fs2)
+    fs2.path("/work/operators").mkdir(parents=True)
+    fs2.path("/out").mkdir()
+    fs2.write("/work/metadata.yaml", ("yaml", {"m": 1}))
+    fs2.write("/work/operators/a.npz.lz4", ("lz4", "A"))
+    ekoc_ = src.cls("eko.io.struct.EKO")
+    e_ = Obj(ekoc_)
+    md_ = Obj(src.cls("eko.io.metadata.Metadata"))
+    md_.attrs.update(_path=fs2.path("/work"))
+    acc_ = Obj(src.cls("eko.io.access.AccessConfigs"))
+    acc_.attrs.update(path=fs2.path("/out/a.tar"), readonly=False, open=True)
+    e_.attrs.update(metadata=md_, access=acc_)
+    try:
+        pe2.apply(pe2.getattr(e_, "dump"), [], {})
+        tok = fs2.files.get("/out/a.tar")
+        members = sorted(tok[1]) if isinstance(tok, tuple) and tok[0] == "tar" else None
+    except Exception as ex:
+        members = f"raises {ex}"
+    addall_ok = members == ["metadata.yaml", "operators/a.npz.lz4"]
+    chk.decide(len(unpack) == 1 and addall_ok, "whole-archive-agrees", "crates/dekoder/src/eko.rs::extract",
                "the reader no longer unpacks the whole archive / the writer no longer adds the working directory as '.'", where=feko.rel)
     # ---- (2) headers -------------------------------------------------------------------------------------------------------------
     py_hext = pe.get_global(INV, "HEADER_EXT")
@@ -87,10 +115,14 @@ def run(chk):
             msg = f"`{key}` is read with {how}; a Python {base} may be dumped as an integer-valued scalar, so the reader needs the float read with an integer fallback"
         chk.decide(ok, "header-kinds-agree", "crates/dekoder/src/eko.rs::EvolutionPoint::try_from", msg, where=feko.rel, instance=key)
     fset = src.func(f"{INV}.Inventory.__setitem__")
-    tset = stmt_text(fset.node)
-    chk.decide("np.generic" in tset and ".item()" in tset and "safe_dump" in tset, "header-kinds-agree", fset.qname,
-               "the header payload is not normalised to builtin numbers before dumping: np.int64 / np.float64 would be written with python tags the "
-               "Rust YAML loader cannot read as i64 / f64", where=fset.where, instance="normalised")
+    # what the Python writer actually produces, on the model file system: an operator with errors and one without, stored under
+    # headers given as NumPy scalars
+    written = _python_writer_table(src)
+    hd = written.get("header")
+    chk.decide(isinstance(hd, tuple) and hd[0] == "yaml" and isinstance(hd[1], dict) and all(isinstance(v, (int, Fraction)) or hasattr(v, "op") for v in hd[1].values()),
+               "header-kinds-agree", fset.qname, f"a header given as NumPy scalars is written as {hd}: it must be a plain-YAML mapping of built-in "
+               "numbers (np.int64 / np.float64 would carry python tags the Rust YAML loader cannot read as i64 / f64)", where=fset.where,
+               instance="normalised", how="PE on a model file system")
     # ---- (3) operator files ------------------------------------------------------------------------------------------------------------
     we = finv.find(r'\.with_extension\(\s*"([^"]+)"\s*\)')
     chk.need(len(we) == 1, "the reader no longer derives the operator file name with one with_extension(...)")
@@ -105,24 +137,25 @@ def run(chk):
                f"writer names an operator with errors `{py_name}`", where=finv.rel)
     members = [m.group(1) for m, _ in finv.find(r'by_name\(\s*"([^"]+)"\s*\)')]
     fsave = src.func("eko.io.items.Operator.save")
-    savez = [c for c in src.calls_in(fsave) if (src.dotted(c.func) or "") == "np.savez"]
-    chk.need(len(savez) == 1, "Operator.save no longer has one np.savez")
-    kw = {k.arg: ast.unparse(k.value) for k in savez[0].keywords}
-    chk.decide(sorted(members) == sorted(k + ".npy" for k in kw) and kw == {"operator": "self.operator", "error": "self.error"}, "npz-members-agree",
-               "crates/dekoder/src/inventory.rs::load", f"the reader asks the npz for {members}; the writer stores {sorted(kw)} (numpy appends .npy)",
-               where=finv.rel)
+    werr = written.get("with-error", {})
+    kw = werr.get("members") or {}
+    chk.decide(sorted(members) == sorted(k + ".npy" for k in kw) and kw == {"operator": "OPERATOR", "error": "ERROR"}, "npz-members-agree",
+               "crates/dekoder/src/inventory.rs::load", f"the reader asks the npz for {members}; the writer stores {kw} (member -> content; numpy appends "
+               f".npy to the names)", where=finv.rel, how="PE of the writer on a model file system")
     # which member goes where
     pair = finv.find(r'let\s+op\s*=\s*Some\(\s*npz\s*\.by_name\("([^"]+)"\).*?let\s+err\s*=\s*Some\(\s*npz\s*\.by_name\("([^"]+)"\)')
     chk.decide(len(pair) == 1 and pair[0][0].group(1) == "operator.npy" and pair[0][0].group(2) == "error.npy", "npz-members-agree",
                "crates/dekoder/src/inventory.rs::load", "`op` / `err` are no longer filled from operator.npy / error.npy respectively", where=finv.rel,
                instance="assignment")
-    ts = stmt_text(fsave.node)
-    chk.decide("FrameDecoder::new" in finv.text and "lz4_flex::frame" in finv.text and "lz4.frame.compress(" in ts, "compression-agrees",
+    chk.decide("FrameDecoder::new" in finv.text and "lz4_flex::frame" in finv.text and werr.get("compression") == "lz4" and written.get("without-error", {}).get("compression") == "lz4", "compression-agrees",
                "crates/dekoder/src/inventory.rs::load", "the two sides no longer both use the lz4 frame format", where=finv.rel)
     # ---- (4) python store: name <-> content, no renames -----------------------------------------------------------------------------------
-    chk.decide("with_err = operator.error is not None" in tset and "operator_name(header, err=with_err)" in tset and "operator.save(fd)" in tset,
-               "name-follows-content", fset.qname, "the operator file name is not chosen by `error is not None` of the operator that is saved into it",
-               where=fset.where)
+    ext_tab = pe.get_global(INV, "OPERATOR_EXT")
+    okn = werr.get("container") == "npz" and werr.get("suffix") == ext_tab[1] and written.get("without-error", {}).get("container") == "npy" \
+        and written.get("without-error", {}).get("suffix") == ext_tab[0]
+    chk.decide(okn, "name-follows-content", fset.qname, f"an operator with errors is written as {werr.get('container')} under `{werr.get('suffix')}`, one without as "
+               f"{written.get('without-error', {}).get('container')} under `{written.get('without-error', {}).get('suffix')}`; required npz under "
+               f"`{ext_tab[1]}` and npy under `{ext_tab[0]}` (the Rust reader opens `{r_ext}` as an npz)", where=fset.where, how="PE of the writer on a model file system")
     moves = []
     for q, f in src.funcs.items():
         if not q.startswith("eko.io.inventory."):
@@ -149,3 +182,46 @@ def run(chk):
     chk.note(rust_files=[feko.rel, finv.rel], rust_constants=rc, header_reads=reads,
              files=["crates/dekoder/src/eko.rs", "crates/dekoder/src/inventory.rs", "src/eko/io/inventory.py", "src/eko/io/items.py", "src/eko/io/paths.py"])
     chk.explanation = "Cross-language writer/reader tables; who-may-write rule for operator files."
+
+
+def _python_writer_table(src):
+    """store one operator with and one without errors through Inventory.__setitem__ on the model file system and describe the files"""
+    import pathlib
+
+    from .. import fsmodel
+    from ..pe import ClassRef
+
+    out = {}
+    icls = src.cls(f"{INV}.Inventory")
+    for label, with_err in (("with-error", True), ("without-error", False)):
+        fs = fsmodel.FS()
+        pe = PE(src)
+        fsmodel.install(pe, fs)
+        fs.path("/d").mkdir()
+        inv = Obj(icls)
+        acc = Obj(src.cls("eko.io.access.AccessConfigs"))
+        acc.attrs.update(path=None, readonly=False, open=True)
+        inv.attrs.update(path=fs.path("/d"), access=acc, header_type=ClassRef(src.cls("eko.io.items.Target")), cache={}, contentless=False, name="operators")
+        h = Obj(src.cls("eko.io.items.Target"))
+        h.attrs.update(scale=fsmodel.NpScalar(Fraction(9)), nf=fsmodel.NpScalar(4, "int64"))
+        o = Obj(src.cls("eko.io.items.Operator"))
+        o.attrs.update(operator="OPERATOR", error="ERROR" if with_err else None)
+        try:
+            pe.apply(pe.getattr(inv, "__setitem__"), [h, o], {})
+        except Exception as e:  # the table then simply lacks the entry
+            out[label] = {"error": str(e)}
+            continue
+        for p, tok in fs.files.items():
+            suffix = "".join(pathlib.PurePosixPath(p).suffixes)
+            if isinstance(tok, tuple) and tok[0] == "yaml":
+                out["header"] = tok
+                continue
+            d = {"suffix": suffix}
+            if isinstance(tok, tuple) and tok[0] == "lz4":
+                d["compression"] = "lz4"
+                tok = tok[1]
+            if isinstance(tok, tuple) and tok[0] in ("npz", "npy"):
+                d["container"] = tok[0]
+                d["members"] = dict(tok[1]) if tok[0] == "npz" else None
+            out[label] = d
+    return out
